@@ -82,9 +82,9 @@ func (f *Frame) evalC(e *CExpr, env *Env) *Val {
 		}
 		body := f.evalBool(e.A, &nenv)
 		if e.Op == "forall" {
-			return boolVal(Forall(bs, Implies(And(guards...), body)))
+			return boolVal(Forall(bs, shiftQuantVars(bs, Implies(And(guards...), body))))
 		}
-		return boolVal(Exists(bs, And(append(guards, body)...)))
+		return boolVal(Exists(bs, shiftQuantVars(bs, And(append(guards, body)...))))
 	case "sel":
 		return f.evalSel(e, env)
 	case "idx":
@@ -474,7 +474,11 @@ func (f *Frame) evalBin(e *CExpr, env *Env) *Val {
 			eq = And(Eq(a.Addr.Base, b.Addr.Base), Eq(a.Addr.Idx, b.Addr.Idx))
 		} else {
 			a, b = f.unifyNil(a, b), f.unifyNil(b, a)
-			eq = f.valEq(a, b, a.T)
+			if a.K == VSlice && b.K == VSlice && !isZero(a.Base) && !isZero(b.Base) {
+				eq = And(Eq(a.Base, b.Base), Eq(a.Off, b.Off), Eq(a.Len, b.Len), Eq(a.Cap, b.Cap))
+			} else {
+				eq = f.valEq(a, b, a.T)
+			}
 		}
 		if e.Op == "!=" {
 			eq = Not(eq)
@@ -687,6 +691,45 @@ func (f *Frame) evalCall(e *CExpr, env *Env) *Val {
 		case VFunc:
 			return boolVal(Eq(f.funcTerm(a), IntLit(0)))
 		}
+	case "alloc":
+		a := arg(0)
+		al := env.State.Get(allocKey, ArrayS(IntS, BoolS))
+		f.E.noteVars(al)
+		return boolVal(Select(al, a.X))
+	case "inv":
+		// inv(x) / inv(x, label): the type invariant(s) of x's struct type, instantiated for x
+		a := arg(0)
+		n := namedStructOf(a.T)
+		if n == nil {
+			f.E.fail("inv(): %s is not a pointer to a named struct", e.Args[0])
+		}
+		tc := f.E.typeContractFor(n)
+		if tc == nil {
+			f.E.fail("inv(): no type contract for %s", n)
+		}
+		nenv := *env
+		nenv.Vars = map[string]*Val{"self": a}
+		nenv.Bound = env.Bound
+		nenv.Callee = &FuncContract{}
+		var cs []*Term
+		for _, cl := range tc.Invariants {
+			if len(e.Args) > 1 {
+				match := false
+				for _, l := range e.Args[1:] {
+					if l.Name == cl.Label {
+						match = true
+					}
+				}
+				if !match {
+					continue
+				}
+			}
+			cs = append(cs, f.evalBool(cl.E, &nenv))
+		}
+		if len(cs) == 0 {
+			f.E.fail("inv(): no invariant selected by %s", e)
+		}
+		return boolVal(And(cs...))
 	case "unchanged":
 		nenv := *env
 		nenv.State = env.Old
